@@ -46,6 +46,9 @@ func c10Item(e c10Entry, variant int) ap.Item {
 		return &ap.Actor{ID: ap.IRI(id), Type: ap.PersonType, PreferredUsername: ap.DefaultNaturalLanguageValue("u")}
 	case "object":
 		return &ap.Object{ID: ap.IRI(id), Type: ap.GroupType}
+	case "opaque":
+		// an addressee named by a URI without an authority (acct:, urn:): a different string is a different addressee
+		return ap.IRI(fmt.Sprintf("acct:user%d@example.com", e.Who))
 	case "near":
 		// another addressee whose id is as close as a different identity gets: the same host and path with a query
 		if strings.Contains(id, "#") {
@@ -255,7 +258,7 @@ func TestC10(t *testing.T) {
 		"to/cc/bto/bcc for Object, Activity and Block activities (blocked = alice); random: all five addressing properties (+actor), lists up to 8 over 5 addressees incl. the public collection " +
 		"in IRI / embedded actor / embedded object / scheme-case-trailing-slash variant presentations and nil entries, all 13 types with Recipients(). Oracle: reference first-mention scan " +
 		"(to, cc, bto, bcc, [actor], audience) under the IRI normaliser ignoring scheme; returned list and the four lists after the call are compared; Block clause. " +
-		"near: the same pair enumeration over {alice, alice?page=1, an object alice?page=1&page=2}: three different addressees whose ids differ only in the query. " +
+		"near: the same pair enumeration over {alice, alice?page=1, an object alice?page=1&page=2}: three different addressees whose ids differ only in the query, and two addressees named by acct: URIs. " +
 		"non-trivial = at least one addressee mentioned twice; distinct by the assignment")
 
 	alpha := []c10Entry{{0, "iri"}, {1, "iri"}, {0, "actor"}, {-1, "nil"}}
@@ -272,7 +275,7 @@ func TestC10(t *testing.T) {
 	}
 	build(nil)
 	// second alphabet: alice, and two other addressees whose ids differ from hers only in the query
-	alpha = []c10Entry{{0, "iri"}, {0, "near"}, {0, "near-object"}}
+	alpha = []c10Entry{{0, "iri"}, {0, "near"}, {0, "near-object"}, {0, "opaque"}, {1, "opaque"}}
 	first := len(lists)
 	build(nil)
 	nearLists := lists[first:]
@@ -343,7 +346,7 @@ func TestC10(t *testing.T) {
 		r.Exhaustive("pairs", !r.Replaying())
 	}
 
-	forms := []string{"iri", "iri", "actor", "object", "variant", "near", "near-object"}
+	forms := []string{"iri", "iri", "actor", "object", "variant", "near", "near-object", "opaque"}
 	r.Rapid(t, "random", r.Pick(4000, 30000), func(t *rapid.T) {
 		gt := rapid.SampledFrom(c10Types).Draw(t, "gotype")
 		c := c10Case{GoType: gt, VType: string(rapid.SampledFrom(vocab.NamesFor(gt)).Draw(t, "vtype")), Lists: map[string][]c10Entry{}}
